@@ -226,11 +226,12 @@ type Env struct {
 	TaskIds []string // by position ("" when the role never got a task)
 	E       *environment.Environment
 
-	mu       sync.Mutex
-	outcomes []simcore.CmdOutcome // for the command in flight, by position
-	finished bool
-	evMark   int // index into the captured state list where the current request began
-	callMark int
+	mu         sync.Mutex
+	outcomes   []simcore.CmdOutcome // for the command in flight, by position
+	activeSeen []bool               // by position: the director saw the launched task ACTIVE in the roster
+	finished   bool
+	evMark     int // index into the captured state list where the current request began
+	callMark   int
 }
 
 func (e *Env) outcome(idx int) simcore.CmdOutcome {
@@ -240,6 +241,22 @@ func (e *Env) outcome(idx int) simcore.CmdOutcome {
 		return simcore.CmdAck
 	}
 	return e.outcomes[idx]
+}
+
+// AllRunActive: every task scripted to run (launch[i] "run" or absent) was launched and seen ACTIVE in
+// the core's roster by the director of Create (true for a workflow without tasks).
+func (e *Env) AllRunActive(launch []string) bool {
+	e.mu.Lock()
+	defer e.mu.Unlock()
+	for i := range e.Tasks {
+		if i < len(launch) && launch[i] != "" && launch[i] != "run" {
+			continue
+		}
+		if i >= len(e.activeSeen) || !e.activeSeen[i] {
+			return false
+		}
+	}
+	return true
 }
 
 func (e *Env) SetOutcomes(oc []simcore.CmdOutcome) {
@@ -457,11 +474,19 @@ func (w *World) Create(name string, tasks []Task, launch []string, cfg []string,
 	if err := os.WriteFile(filepath.Join(w.Sim.RepoDir, "workflows", name+".yaml"), []byte(y), 0o644); err != nil {
 		return nil, CreateResult{Err: err}
 	}
-	e := &Env{W: w, Id: uid.New(), Name: name, Tasks: tasks, TaskIds: make([]string, len(tasks))}
+	e := &Env{W: w, Id: uid.New(), Name: name, Tasks: tasks, TaskIds: make([]string, len(tasks)), activeSeen: make([]bool, len(tasks))}
 	e.SetOutcomes(ParseOutcomes(cfg, len(tasks)))
 	e.Mark()
 	stop := make(chan struct{})
 	dirDone := make(chan struct{})
+	stopped := func() bool {
+		select {
+		case <-stop:
+			return true
+		default:
+			return false
+		}
+	}
 	go func() {
 		defer close(dirDone)
 		seen := map[string]bool{}
@@ -502,11 +527,20 @@ func (w *World) Create(name string, tasks []Task, launch []string, cfg []string,
 				switch how {
 				case "run":
 					w.Sim.C02MarkRunning(it.tid)
-					simcore.WaitFor(2*time.Second, func() bool { return w.taskStatus(it.tid) == "ACTIVE" })
+					// returns as soon as the status is there; the bound only matters on a very slow machine
+					// (or when the creation is over)
+					active := false
+					simcore.WaitFor(10*time.Second, func() bool {
+						active = w.taskStatus(it.tid) == "ACTIVE"
+						return active || stopped()
+					})
+					e.mu.Lock()
+					e.activeSeen[it.idx] = active
+					e.mu.Unlock()
 					time.Sleep(time.Millisecond) // let the DEPLOY loop get back to its select
 				case "fail":
 					w.Sim.FailTask(it.tid, mesos.TASK_FAILED)
-					simcore.WaitFor(2*time.Second, func() bool { return w.taskState(it.tid) == "ERROR" })
+					simcore.WaitFor(10*time.Second, func() bool { return w.taskState(it.tid) == "ERROR" || stopped() })
 					time.Sleep(time.Millisecond)
 				}
 			}
